@@ -309,6 +309,18 @@ class InterpModel:
         x = np.asarray(x, dtype=float)
         if not self.fn.has_bounds:
             return np.full(x.shape + (self.R,), np.inf)
+        if len(self.xs) < 4:
+            # two points: the 'spline' is the chord; three: the parabola through them.
+            # Lagrange remainder with the whole table width (times 2)
+            n = len(self.xs)
+            Ht = self.xs[-1] - self.xs[0]
+            Mn = self.fn.bound(n)
+            c = {2: (1.0 / 8.0, 0.5, 1.0), 3: (4.0 / 162.0, 0.5, 1.0)}[n][k]
+            b = 2.0 * c * Mn * Ht ** (n - k) + 64.0 * EPS * (
+                self.fn.bound(0) + self.fn.xabs * self.fn.bound(1)) / np.min(np.diff(self.xs)) ** k
+            if k == 2 and n == 2:
+                b = b + self.fn.bound(2)          # s'' = 0
+            return np.broadcast_to(b, x.shape + (self.R,)).copy()
         idx = np.clip(np.searchsorted(self.xs, x, side="right") - 1, 0, len(self.xs) - 2)
         H = self.heff()[idx][..., None]
         hmin = np.diff(self.xs)[idx][..., None]
@@ -572,6 +584,10 @@ class InterpModel:
                 continue
             xm = xa[mask]
             layer = np.abs(xm - edge) <= reach
+            # a table narrower than the stencil: the far stencil points are beyond the
+            # *other* end and follow the other side's mode -- not judged for value
+            cross = (xm + 2.0 * dx >= self.xmax) if name == "below" else \
+                (xm - 2.0 * dx <= self.xmin)
             lay = np.zeros(xa.shape, dtype=bool)
             lay[mask] = layer
             pr.layer |= lay
@@ -627,6 +643,14 @@ class InterpModel:
                         inside = ((pos >= self.xmin) & (pos <= self.xmax))[..., None]
                         dev = np.maximum(dev, np.where(inside, np.abs(spl(pos) - pend), 0.0))
                     t[layer] += 2.0 * S_FD[order] / dx ** order * dev[layer]
+                tol[mask] = t
+        for mask, mode, name in ((lo, self.lower, "below"), (hi, self.upper, "above")):
+            if np.any(mask) and mode != "ERROR":
+                xm = xa[mask]
+                cross = (xm + 2.0 * dx >= self.xmax) if name == "below" else \
+                    (xm - 2.0 * dx <= self.xmin)
+                t = tol[mask]
+                t[cross] = np.inf
                 tol[mask] = t
         pr.expected, pr.tol = self._squeeze(exp), self._squeeze(tol)
         pr.truth, pr.acc = self._squeeze(truth), self._squeeze(acc)
